@@ -31,6 +31,23 @@ def main(argv):
             from . import selftest
 
             return selftest.main(args.tier)
+        if "," in args.what:
+            # several properties in one process: the model runs / replays they share are done once
+            worst = 0
+            for pid in args.what.split(","):
+                if pid not in props.CHECKS:
+                    print("unknown property %s" % pid)
+                    return 2
+                try:
+                    res = core.Result(pid, args.tier)
+                    props.CHECKS[pid](res)
+                    rc = core.finish(res)
+                except T.MachineryError as e:
+                    print("MACHINERY-ERROR: property=%s %s" % (pid, e))
+                    rc = 2
+                print("RESULT property=%s rc=%d" % (pid, rc))
+                worst = max(worst, rc)
+            return worst
         if args.what not in props.CHECKS:
             print("unknown property %s" % args.what)
             return 2
